@@ -2,12 +2,14 @@ import SodiumModel.Driver.Common
 import SodiumModel.Driver.C14
 import SodiumModel.Driver.C16
 import SodiumModel.Driver.C15
+import SodiumModel.Driver.C03
 open Sodium.Driver
 
 def handlers : List (String → List String → Option String) := [
   Sodium.Driver.C14.handle,
   Sodium.Driver.C16.handle,
-  Sodium.Driver.C15.handle
+  Sodium.Driver.C15.handle,
+  Sodium.Driver.C03.handle
 ]
 
 def dispatch (line : String) : String :=
